@@ -16,6 +16,7 @@ None == "none"
 \*   proj [lookup: X -> [c, cid, authd]  (GetControlConnectionByClientID; c = "none": nothing),
 \*         conns:  c -> [sess, reg, tun, authd, cid, tcl]   (per accepted connection),
 \*         listed: sequence of connection names (ListAuthenticated),
+\*         slist:  sequence of connection names (SessionManager.ListConnections),
 \*         ctl, tun, total, count  (GetConnectionStats / GetActiveChannels)]
 \* Par: like Op for a quiescent state after concurrent scripts; carries ctlset / closedset /
 \*   loggedin explicitly instead of the incremental fields.
@@ -33,6 +34,7 @@ Check(p, D, cc, gn, un, rg) ==
   LET cs == DOMAIN p.conns
       xs == DOMAIN p.lookup
       ls == ToSet(p.listed)
+      sl == ToSet(p.slist)
       hit(X) == p.lookup[X].c # None
       dead == {c \in cs : p.conns[c].tcl} \cup (gn \cap cs)
   IN   (IF \E X \in xs : hit(X) /\ p.lookup[X].cid # X THEN {V("LookupOwner", D)} ELSE {})
@@ -43,11 +45,12 @@ Check(p, D, cc, gn, un, rg) ==
                                                   /\ (c \in cc \/ p.lookup[X].c = c)}) > 1 THEN {V("OnePerClient", D)} ELSE {})
   \cup (IF \E c \in dead : \E X \in xs : p.lookup[X].c = c THEN {V("ClosedStillLookedUp", D)} ELSE {})
   \cup (IF \E c \in dead : p.conns[c].reg \/ p.conns[c].tun \/ c \in ls THEN {V("ClosedStillRegistered", D)} ELSE {})
-  \cup (IF \E c \in dead : p.conns[c].sess THEN {V("ClosedStillCounted", D)} ELSE {})
+  \cup (IF \E c \in dead : p.conns[c].sess \/ c \in sl THEN {V("ClosedStillCounted", D)} ELSE {})
   \cup (IF \E c \in gn \cap cs : ~p.conns[c].tcl THEN {V("ClosedTransportOpen", D)} ELSE {})
   \cup (IF \E c \in (rg \cap cs) \ un : ~p.conns[c].reg /\ ~p.conns[c].tcl THEN {V("EvictedTransportOpen", D)} ELSE {})
+  \cup (IF \E c \in (rg \cap cs) \ un : ~p.conns[c].reg /\ (p.conns[c].sess \/ c \in sl) THEN {V("EvictedStillCounted", D)} ELSE {})
   \cup (IF p.ctl # Cardinality({c \in cs : p.conns[c].reg}) \/ p.tun # Cardinality({c \in cs : p.conns[c].tun})
-           \/ p.total # Cardinality({c \in cs : p.conns[c].sess}) \/ p.count # p.ctl + p.tun THEN {V("Counts", D)} ELSE {})
+           \/ p.total # Cardinality({c \in cs : p.conns[c].sess}) \/ sl # {c \in cs : p.conns[c].sess} \/ p.count # p.ctl + p.tun THEN {V("Counts", D)} ELSE {})
 
 \* a clause is reported once per trace, with the detail of the step at which it was first violated
 \* (later projections of the same trace are consequences of the same defect)
